@@ -142,7 +142,8 @@ def main():
     # search for a concrete failing input when an obligation failed (Verus gives no counterexample), and otherwise an additional run (labelled bounded)
     if spec.get("fallback") and not os.environ.get("VERIF_NO_E2E"):
         for name, fn in spec["fallback"]:
-            er = fn(tier, seed)
+            # as a stand-in or a counterexample search the families run at their thorough sizes
+            er = fn("thorough" if (undecided or violations) else tier, seed)
             er["role"] = ("bounded stand-in: the Verus side is undecided" if undecided else
                           ("search for a concrete failing input for the failed obligation(s)" if violations else
                            "additional bounded run through the release binary; the proof above decides the property, this part is never counted as proved"))
